@@ -199,6 +199,13 @@ fn eval_rhs(text: &str, env: &Env) -> Option<Val> {
             return Some(Val::Time { utc: utc + 3600, zone: zone.clone(), off: *off });
         }
     }
+    if let [Tok::Other(d), Tok::Word(at), Tok::Val(Binding::Known(Val::Time { utc, zone, off }))] = toks.as_slice() {
+        if d == "1/2/2021" && at == "at" && *off == 0 {
+            // the date at the time of day the variable holds
+            let day0 = 18659i64; // 2021-02-01 in days since the epoch
+            return Some(Val::DateTime { utc: day0 * 86400 + utc.rem_euclid(86400), zone: zone.clone(), off: *off });
+        }
+    }
     if let [Tok::Val(Binding::Known(Val::Unit(a, g, i))), Tok::Word(to), Tok::Word(m)] = toks.as_slice() {
         if to == "to" && m == "m" && g == "metric-length" && *i == 7 {
             return Some(Val::Unit(a * 1000.0, "metric-length".into(), 4));
@@ -290,7 +297,7 @@ pub const NUM_LINES: [&str; 26] = [
 
 const KIND_BINDS: [&str; 7] = ["x = 5", "x = 10%", "x = 10 usd", "x = 3 days", "x = 1/2/2021", "x = 11:30", "x = 2 km"];
 const KIND_MIDDLE: [&str; 9] = ["", "y = x", "x = x", "x = 1 +", "x = 1 usd + 1 km", "y = 10 usd", "X = 7", "# x = 1", "x y = 3"];
-const KIND_USES: [&str; 9] = ["x", "y", "200 + x", "x to eur", "1/1/2021 + x", "x + 1 hour", "x to m", "x y", "2 * x"];
+const KIND_USES: [&str; 10] = ["x", "y", "200 + x", "x to eur", "1/1/2021 + x", "x + 1 hour", "x to m", "x y", "2 * x", "1/2/2021 at x"];
 
 impl Prop for C03 {
     type Case = Case;
@@ -357,6 +364,23 @@ impl Prop for C03 {
                     let mut lines = Vec::new();
                     for _ in 0..n {
                         lines.push(ch.pick(&LONG_LINES).to_string());
+                    }
+                    Some(Case { lines, bfs: None })
+                },
+            ));
+        }
+        {
+            const MONTH_LINES: [&str; 10] = ["january = 1200", "february = 1350", "january + february", "february = february + 50", "february", "january", "dec budget = 7", "dec budget + january", "2 * january", "january = february"];
+            let dm = tier.pick(3, 4);
+            f.push(Family::new(
+                "month-word-names",
+                Mode::Full,
+                &format!("every program of 1..={} lines over {} line kinds whose names are month words ('january', 'february') or contain one ('dec budget'): bound, re-bound through themselves and used on lines that contain no other word", dm, MONTH_LINES.len()),
+                move |ch| {
+                    let n = 1 + ch.choose(dm);
+                    let mut lines = Vec::new();
+                    for _ in 0..n {
+                        lines.push(ch.pick(&MONTH_LINES).to_string());
                     }
                     Some(Case { lines, bfs: None })
                 },
